@@ -75,4 +75,47 @@ C03_Diag(S, v, defs, e) ==
     ELSE IF ~AddedOK(S, v, e.out, defs) THEN "C03/UnexpectedAddition"
     ELSE IF ~e.rt2_ok \/ ~JEq(e.out2, e.out) THEN "C03/NotIdempotent"
     ELSE "ok"
+
+(* ---- C05 --------------------------------------------------------------- *)
+(* EnforcedViolation(S, v): v violates, somewhere, a constraint of a kind the
+   property lists as enforced: the JSON type of a scalar, string length in
+   scalar values, pattern, enum membership, a not-enum deny list, a required
+   member whose schema does not admit null, a member of a closed object that
+   the object does not declare, the arity of a fixed tuple, a tag value (an
+   enum-valued property of a oneOf branch).  For a oneOf every branch must be
+   violated in this sense.  Only such instances carry the obligation "is
+   rejected"; other invalid instances (an array where an object is expected,
+   an unenforced keyword) carry none. *)
+ScalarTypes == {"string", "integer", "number", "boolean", "null"}
+ClosedObj(S) == SHas(S, "additionalProperties") /\ SHas(S.additionalProperties, "bool") /\ ~S.additionalProperties.bool
+FixedTuple(S) == SHas(S, "itemsList") /\ SHas(S, "minItems") /\ SHas(S, "maxItems")
+                 /\ S.minItems = Len(S.itemsList) /\ S.maxItems = Len(S.itemsList)
+RECURSIVE EnforcedViolation(_, _, _, _)
+EnforcedViolation(S, v, defs, d) ==
+    IF SHas(S, "bool") THEN FALSE
+    ELSE IF SHas(S, "ref") THEN d > 0 /\ EnforcedViolation(defs[S.ref], v, defs, d - 1)
+    ELSE IF SHas(S, "oneOf") THEN \A i \in DOMAIN S.oneOf : EnforcedViolation(S.oneOf[i], v, defs, d)
+    ELSE
+    \/ /\ Len(TypeSeq(S)) > 0 /\ \A i \in DOMAIN TypeSeq(S) : TypeSeq(S)[i] \in ScalarTypes
+       /\ ~TypeOk(S, v)
+    \/ /\ v.t = "str"
+       /\ \/ SHas(S, "minLength") /\ Len(v.c) < S.minLength
+          \/ SHas(S, "maxLength") /\ Len(v.c) > S.maxLength
+          \/ SHas(S, "pattern") /\ ~PatOk(S.pattern, v.c)
+    \/ SHas(S, "enum") /\ ~\E i \in DOMAIN S.enum : JEq(S.enum[i], v)
+    \/ SHas(S, "not") /\ SHas(S["not"], "enum") /\ \E i \in DOMAIN S["not"].enum : JEq(S["not"].enum[i], v)
+    \/ /\ v.t = "obj" /\ SHas(S, "properties")
+       /\ \/ \E r \in ReqSet(S) : ~HasKey(v, r) /\ r \in DOMAIN S.properties /\ ~Valid(S.properties[r], JNull, defs)
+          \/ ClosedObj(S) /\ \E i \in DOMAIN v.k : v.k[i] \notin DOMAIN S.properties
+          \/ \E i \in DOMAIN v.k : v.k[i] \in DOMAIN S.properties
+                                     /\ EnforcedViolation(S.properties[v.k[i]], v.v[i], defs, d)
+    \/ /\ v.t = "obj" /\ ~SHas(S, "properties") /\ SHas(S, "additionalProperties")
+       /\ \E i \in DOMAIN v.v : EnforcedViolation(S.additionalProperties, v.v[i], defs, d)
+    \/ /\ v.t = "arr" /\ FixedTuple(S)
+       /\ \/ Len(v.v) # Len(S.itemsList)
+          \/ \E i \in DOMAIN v.v : EnforcedViolation(S.itemsList[i], v.v[i], defs, d)
+    \/ /\ v.t = "arr" /\ SHas(S, "items")
+       /\ \E i \in DOMAIN v.v : EnforcedViolation(S.items, v.v[i], defs, d)
+
+C05_Applies(S, v, defs) == ~Valid(S, v, defs) /\ EnforcedViolation(S, v, defs, 3)
 =============================================================================
